@@ -15,13 +15,14 @@ RULE = (
     "every durable status row (SQL trigger AFTER UPDATE OF status on workflow / stage / task tables; rolled-back rows "
     "never appear) of: delivery-engine runs over the full workflow family with random order, withheld acks, injected "
     "cancels, signals, duplicate StartStage, recovery sweeps, operator RestartStage and pause / unpause; jump-heavy loops; crash-engine "
-    "runs (every 3rd commit snapshot resumed with recovery); and - via the interleaving engine - racing workers. Oracle: "
+    "runs (every 3rd commit snapshot resumed with recovery); and - via the interleaving engine - racing workers, also with an operator thread (cancel / pause + unpause / restart "
+    "of a finished stage issued at a random point while 3 workers run). Oracle: "
     "(old -> new) is in VALID_TRANSITIONS and old is not a completed status, unless the row sits in a commit group that "
     "carries a JumpToStage / RestartStage processed mark (the explicit re-arm). Non-trivial = a status row; distinct = "
     "(entity kind, old, new, re-arm?) edges observed."
 )
 ASSUMPTIONS = ["SQLite backend", "re-arm exemption is decided from the engine's own processed mark in the same commit group, not from timing"]
-MIN_OBS = {"transitions_checked": {"quick": 20000, "thorough": 300000}}
+MIN_OBS = {"transitions_checked": {"quick": 20000, "thorough": 300000}, "operator_action_runs": {"quick": 60, "thorough": 800}}
 TIMEOUT = {"quick": 800, "thorough": 3400}
 
 
@@ -30,6 +31,7 @@ def gen_cases(tier: str, seed: int) -> list[dict]:
     cases = [{"kind": "delivery", "spec_i": i, "seed": seed, "nsched": 16 if tier == "quick" else 30} for i in range(n)]
     cases += [{"kind": "crash", "spec_i": i, "seed": seed} for i in range(12 if tier == "quick" else 60)]
     cases += [{"kind": "race", "i": i, "seed": seed} for i in range(8 if tier == "quick" else 60)]
+    cases += [{"kind": "race", "i": 1000 + i, "seed": seed, "ops": True} for i in range(12 if tier == "quick" else 120)]
     return cases
 
 
